@@ -176,12 +176,31 @@ fn values_for(bpp: u32, rng: &mut Rng, quick: bool) -> Vec<u32> {
     }
 }
 
-fn sweep<R, O>(run: &Run, max_len: usize)
+fn sweep<R, O>(run: &Run, max_len: usize, type_name: &'static str, documented_bits: usize)
 where
     R: RawData + Copy + PartialEq + core::fmt::Debug + Send + Sync,
     R::Storage: Into<u32>,
     O: DataOrder,
 {
+    // the width the type's name and documentation promise; everything below models the layout with
+    // the library's constant, so a disagreement is reported here and the sweep for the type is skipped
+    if !O::IS_ALTERNATE_ORDER || run.cli.replay.is_some() {
+        let mut consistent = true;
+        let gen_w: &'static str = Box::leak(format!("{}-documented-width", type_name).into_boxed_str());
+        run.section(gen_w, |ctx| {
+            ctx.eval();
+            ctx.nontrivial(egmon::rng::hash_str(gen_w));
+            if R::BITS_PER_PIXEL != documented_bits {
+                consistent = false;
+                ctx.violation(format!("{}|bits-per-pixel", type_name), || format!("{}::BITS_PER_PIXEL", type_name), || format!("{} instead of the documented {}", R::BITS_PER_PIXEL, documented_bits));
+            }
+        });
+        if !consistent {
+            return;
+        }
+    } else if R::BITS_PER_PIXEL != documented_bits {
+        return;
+    }
     let bpp = R::BITS_PER_PIXEL as u32;
     let name: &'static str = Box::leak(tname::<R, O>().into_boxed_str());
     let gen_store: &'static str = Box::leak(format!("{}-store-load", name).into_boxed_str());
@@ -340,17 +359,17 @@ fn main() {
         run.assume("layout model written from the documentation: LittleEndianMsb0 = little-endian bytes + MSB-first sub-byte pixels, BigEndianLsb0 = big-endian bytes + LSB-first sub-byte pixels");
         let max_len = run.tier(9usize, 13usize);
         macro_rules! both {
-            ($r:ident) => {
-                sweep::<$r, LittleEndianMsb0>(run, max_len);
-                sweep::<$r, BigEndianLsb0>(run, max_len);
+            ($r:ident, $bits:expr) => {
+                sweep::<$r, LittleEndianMsb0>(run, max_len, stringify!($r), $bits);
+                sweep::<$r, BigEndianLsb0>(run, max_len, stringify!($r), $bits);
             };
         }
-        both!(RawU1);
-        both!(RawU2);
-        both!(RawU4);
-        both!(RawU8);
-        both!(RawU16);
-        both!(RawU24);
-        both!(RawU32);
+        both!(RawU1, 1);
+        both!(RawU2, 2);
+        both!(RawU4, 4);
+        both!(RawU8, 8);
+        both!(RawU16, 16);
+        both!(RawU24, 24);
+        both!(RawU32, 32);
     })
 }
